@@ -575,6 +575,14 @@ def _p_estsize(c):
     b = fn(f, x=xv, y=yv, criteria=c.get('criteria', 'last'))
     if not (abs(a - b) <= 1e-9 * max(abs(b), dx)):
         return f'{c["metric"]} with dx only = {a}, on the make_xy_grid vectors = {b}'
+    if c.get('criteria', 'last') == 'last':
+        # returned size = 2 x (radius one rho step past the last polar sample above the level, averaged over the azimuth); rho has
+        # len(x) samples from 0 to max(m//2, n//2) dx.  For the Gaussian the analytic full width is 2 k s: the answer lies on the
+        # rho lattice, so within one step of the radius (two of the width) plus the linear-interpolation error (measured < 2.01 steps)
+        want = 2 * {'fwhm': np.sqrt(2 * np.log(2)), '1/e': np.sqrt(2), '1/e^2': 2.0}[c['metric']] * s
+        dr = max(m // 2, n // 2) * dx / (n - 1)
+        if not abs(a - want) <= 2.5 * dr:
+            return f'{c["metric"]} = {a} for a Gaussian centred on the origin sample whose analytic width is {want} (rho step {dr})'
     return None
 
 
@@ -716,8 +724,8 @@ def _p_centroid_pad(c):
 @pred('slices_az')
 def _p_slices_az(c):
     """azimuthal statistics of Slices resample the data about the coordinate zero: for the linear map z = x + 2 y (exact under
-    linear interpolation) the average / maximum over the azimuth at radius rho is rho * mean / max of (cos + 2 sin), for every
-    radius inside the array"""
+    linear interpolation) every statistic over the azimuth at radius rho (mean, median, min, max, pv, var, std) is rho (rho^2 for
+    the variance) times the same statistic of (cos + 2 sin), for every radius inside the array"""
     co = _impl()[1]
     m, n = c['shape']
     dx = c['dx']
@@ -725,15 +733,21 @@ def _p_slices_az(c):
     r = _impl()[4].RichData(1 * x + 2 * y, dx, 1.0)
     s = r.slices()
     rho, avg = s.azavg
-    _, mx = s.azmax
     phi = np.linspace(0, 2 * np.pi, m)
     xv, yv = x[0], y[:, 0]
     rin = min(abs(xv.min()), abs(xv.max()), abs(yv.min()), abs(yv.max()))
     k = rho <= rin * (1 - 1e-12)
     w = np.cos(phi) + 2 * np.sin(phi)
     tol = 1e-9 * max(rin, abs(dx))
-    if len(rho) != n or np.abs(avg - rho * w.mean())[k].max() > tol or np.abs(mx - rho * w.max())[k].max() > tol:
-        return 'azimuthal average / maximum of z = x + 2 y is not rho * mean / max (cos + 2 sin) about the origin sample'
+    if len(rho) != n:
+        return f'{len(rho)} radial coordinates for {n} columns'
+    # every statistic over the azimuth of rho * w(phi) is rho (or rho^2) times the statistic of w, for rho >= 0
+    stats = (('azavg', w.mean(), 1), ('azmedian', np.median(w), 1), ('azmin', w.min(), 1), ('azmax', w.max(), 1),
+             ('azpv', w.max() - w.min(), 1), ('azvar', w.var(), 2), ('azstd', w.std(), 1))
+    for nm, val, pw in stats:
+        rr, got = getattr(s, nm)
+        if len(got) != len(rho) or np.abs(got - rho ** pw * val)[k].max() > tol * max(1.0, rin) ** (pw - 1):
+            return f'{nm} of z = x + 2 y is not rho^{pw} x the same statistic of (cos + 2 sin) about the origin sample'
     return None
 
 
@@ -1145,7 +1159,7 @@ def _session3_lines(ctx, pairs, ns, shapes, rat):
             lines += [f'shifts {n}', f'fftfreq {n}']
     for (m, n) in shapes:
         dx = DXS[(m + n) % len(DXS)]
-        lines += [f'slices {m} {n} {rat(dx)}', f'support {m} {n} {rat(dx)}', f'dxdiam 3/1 {m} {n}']
+        lines += [f'slices {m} {n} {rat(dx)}', f'support {m} {n} {rat(dx)}', f'dxdiam 3/1 {m} {n}', f'polar {m} {n}']
         lines += [f'vec {m} {n} {k} {rat(dx)}' for k in {0, min(m, n) // 2, min(m, n) - 1}]
     for c in range(0, ctx.scale(14, 22)):
         lines += [f'autocrop {c} {px}' for px in range(1, 9)]
@@ -1237,6 +1251,20 @@ def _session3(ctx, M, pairs, ns, shapes, rat):
                 ctx.disagree('vec_sample', {'shape': [m, n], 'dx': dx, 'k': k}, [float(xv[k]), float(yv[k])], [vx, vy])
         if m >= 3 and n >= 3 and dx > 0:
             _run_pred(ctx, 'slices_az', {'shape': [m, n], 'dx': dx}, nontrivial=True, tag=f'par{m % 2}{n % 2}')
+        if m >= 2 and n >= 2:
+            # shape of the real polar array and number of rho coordinates against the model's axis layout
+            want = list(map(int, M[f'polar {m} {n}'].split()))
+            ctx.case('polar_layout', {'shape': [m, n]}, nontrivial=m != n)
+            try:
+                xv_, yv_ = co.make_xy_grid((m, n), dx=abs(dx), grid=False)
+                rho_, phi_, pol_ = co.uniform_cart_to_polar(xv_, yv_, _marked((m, n)))
+                got = [pol_.shape[0], pol_.shape[1], len(rho_)]
+                if rho_[0] != 0:
+                    got.append('rho[0] != 0')
+            except Exception as ex:
+                got = f'raised {type(ex).__name__}: {ex}'
+            if got != want:
+                ctx.disagree('polar_layout', {'shape': [m, n]}, got, want)
         for what in ('r', 'support', 'exact'):
             for hist in ('fresh', 'copy_after_read', 'copy_before_read'):
                 if what == 'exact' and (m < 2 or n < 2):
@@ -1543,7 +1571,10 @@ MANIFEST_ENTRY = {
              '(13) three-valued AST facts: RichData.r / .t are the first / second result of cart_to_polar(x=self.x, y=self.y); the '
              'polar cache of Slices is uniform_cart_to_polar(x=self._x, y=self._y, data=self._source); exact_x / exact_y '
              'interpolate the (coordinates, values) pair of the x / y slice; exact_xy builds and queries its interpolator in '
-             '(y, x) = (row, column) order; for user-assigned coordinates (k - c0) dx the slice centre is c0. '
+             '(y, x) = (row, column) order; for user-assigned coordinates (k - c0) dx the slice centre is c0; '
+             '(14) polar resampling glue (translated from uniform_cart_to_polar, the seven Slices.az* statistics and '
+             'estimate_size): rho runs along one array axis with len(x) samples, phi along the other with len(y); every az* '
+             'statistic reduces over the phi axis and estimate_size searches / measures / reverses along the rho axis. '
              'COMPARED ONLY (bounded enumeration on the real functions, integer-exact where integers are involved): NumPy plumbing '
              '(slicing, 12 np.pad modes and fill values, meshgrid, roll, argmin and center_of_mass in floating point) for all (n, N) '
              'up to 40 (quick) / 128 (thorough); integer / list / tuple out_shape, Q = 1 with out_shape, int64 / float32 / '
